@@ -76,6 +76,16 @@ def b64dec : List Char → Option (List UInt8)
       | _, _, _, _, _ => none
   | _ => none
 
+/-- days from 1970-01-01 to the civil date `y-m-d` (proleptic Gregorian calendar; Hinnant's algorithm) -/
+def daysFromCivil (y : Int) (m d : Nat) : Int :=
+  let y' : Int := if m ≤ 2 then y - 1 else y
+  let era : Int := y' / 400
+  let yoe : Int := y' - era * 400
+  let mp : Int := (((m : Int) + 9) % 12)
+  let doy : Int := (153 * mp + 2) / 5 + (d : Int) - 1
+  let doe : Int := yoe * 365 + yoe / 4 - yoe / 100 + doy
+  era * 146097 + doe - 719468
+
 /-- dates the stand-in prints: the range `Date::to_xml_format` accepts (years 0000–9999), nanos < 10⁹ -/
 def dateLo : Int := -62167219200
 def dateHi : Int := 253402300799
